@@ -99,7 +99,7 @@ def series(rng, m_lo, m_hi, xcls=None, ycls=None):
     return x, y, {"m": m, "xcls": xc, "ycls": yc}
 
 
-def as_container(rng, a, allow=("array", "list", "int", "strided", "readonly")):
+def as_container(rng, a, allow=("array", "list", "int", "strided", "readonly", "series", "tuple")):
     """Return the same values in another container; integer dtype only when values are integral."""
     kind = allow[int(rng.integers(0, len(allow)))]
     a = np.asarray(a, dtype=float)
@@ -107,6 +107,8 @@ def as_container(rng, a, allow=("array", "list", "int", "strided", "readonly")):
         return [float(v) for v in a], kind
     if kind == "int":
         if np.all(a == np.round(a)) and np.all(np.abs(a) < 2 ** 52):
+            if np.all(np.abs(a) < 2 ** 24) and rng.integers(0, 2):
+                return a.astype(np.int32), "int32"
             return a.astype(np.int64), kind
         return a.copy(), "array"
     if kind == "strided":
@@ -118,4 +120,28 @@ def as_container(rng, a, allow=("array", "list", "int", "strided", "readonly")):
         b = a.copy()
         b.flags.writeable = False
         return b, kind
+    if kind == "tuple":
+        return tuple(float(v) for v in a), kind
+    if kind == "series":
+        # a pandas column whose index is NOT positional (sorted / filtered frame): s[0], s[-1] are label look-ups
+        import pandas as pd
+        n = len(a)
+        idx = [int(v) for v in rng.permutation(n) + int(rng.integers(0, 3))] if rng.integers(0, 2) else \
+            ["r%d" % v for v in range(n)]
+        return pd.Series(a.copy(), index=idx), kind
+    if kind in ("float32", "float16"):
+        # only offered where the code under test up-casts on entry; the caller's values are what the narrow array holds
+        return a.astype(np.float32 if kind == "float32" else np.float16), kind
     return a.copy(), "array"
+
+
+def narrow(rng, a, p=0.15):
+    """with probability p, re-express the values in float32 / float16 (returns the narrow array and its float64 image)"""
+    a = np.asarray(a, dtype=float)
+    if rng.uniform() >= p:
+        return a, a, "float64"
+    dt = np.float32 if rng.integers(0, 3) else np.float16
+    b = a.astype(dt)
+    if not np.all(np.isfinite(b.astype(float))):
+        return a, a, "float64"
+    return b, b.astype(float), dt.__name__
